@@ -233,6 +233,15 @@ func isCall(e ast.Expr, pkg, fn string) bool {
 //   - ts_cmdenv_shape, ts_setenv_shape, ts_getenv_shape, ts_setenvall_shape: whole bodies of cmdEnv,
 //     Setenv, Getenv, setEnv (cmd_env / env_listing, setenv, getenv, setup_env).
 func emitScriptShapes(g *gen, dir string, sh *shaper) {
+	// A missing piece is written INTO the constants (as a shape that names what is missing, and an
+	// empty literal) instead of failing the group: the file is then still regenerated from the
+	// checked tree (no constants of another tree stay behind), script_shapes_current /
+	// line_sep_is_nl stop compiling and the message names what could not be tied.
+	missing := func(what string) {
+		g.emitBytesLit("ts_phase_prefix", "testscript run: NOT FOUND", "")
+		g.emitBytesLit("ts_line_sep", "testscript run: NOT FOUND", "")
+		g.emitBytesLit("ts_runloop_shape", "testscript TestScript.run: structural fingerprint of the line loop (see gen_tsparse_shape.go)", "<NOT TIED: "+what+">")
+	}
 	if fd := g.funcDecl(dir, "TestScript.run"); fd != nil {
 		var loop *ast.ForStmt
 		for _, s := range fd.Body.List {
@@ -248,22 +257,25 @@ func emitScriptShapes(g *gen, dir string, sh *shaper) {
 				}
 			}
 		}
-		if loop == nil {
-			g.fail("%s: (*TestScript).run no longer has the line loop `for script != \"\" { ... }` that script_lines / run_lines of TsParse/TsScript.v mirror: how the script text is cut into lines cannot be tied to the model", dir)
-		} else {
-			var sb strings.Builder
-			sb.WriteString("for(;" + sh.expr(loop.Cond) + ";){")
-			phase, seenPhase, handed := -1, false, false
+		phase := -1
+		if loop != nil {
 			for i, s := range loop.Body.List {
 				if is, ok := s.(*ast.IfStmt); ok && is.Init == nil && isCall(is.Cond, "strings", "HasPrefix") {
 					phase = i
 					break
 				}
 			}
-			if phase < 0 {
-				g.fail("%s: run: the phase-comment test `if strings.HasPrefix(line, ...)` was not found in the line loop", dir)
-				return
-			}
+		}
+		switch {
+		case loop == nil:
+			missing("TestScript.run no longer has the line loop `for script != \"\" { ... }` that script_lines / run_lines of TsParse/TsScript.v mirror: how the script text is cut into lines is not tied to the model")
+		case phase < 0:
+			missing("run: the phase-comment test `if strings.HasPrefix(line, ...)` was not found in the line loop")
+		default:
+			var sb strings.Builder
+			sb.WriteString("for(;" + sh.expr(loop.Cond) + ";){")
+			handed := false
+			prefix, sep := "", ""
 			for i, s := range loop.Body.List {
 				switch {
 				case i < phase:
@@ -275,12 +287,7 @@ func emitScriptShapes(g *gen, dir string, sh *shaper) {
 						last = sh.stmt(is.Body.List[n-1])
 					}
 					sb.WriteString("if(" + sh.expr(is.Cond) + "){..." + last + "}")
-					seenPhase = true
-					if s, ok := tsStringArg(g, is.Cond, "strings", "HasPrefix", 1); ok {
-						g.emitBytesLit("ts_phase_prefix", "testscript run: a line with this prefix is a phase comment and is not handed to runLine", s)
-					} else {
-						g.fail("%s: run: strings.HasPrefix(line, <literal>) has no literal prefix", dir)
-					}
+					prefix, _ = tsStringArg(g, is.Cond, "strings", "HasPrefix", 1)
 				default:
 					r := sh.stmt(s)
 					if strings.Contains(r, "ts.runLine(") {
@@ -292,14 +299,12 @@ func emitScriptShapes(g *gen, dir string, sh *shaper) {
 				}
 			}
 			sb.WriteString("}")
-			if !seenPhase || !handed {
-				g.fail("%s: run: the line loop no longer hands the line to ts.runLine", dir)
+			if !handed {
+				sb.WriteString("<NOT TIED: the line loop no longer hands the line to ts.runLine>")
 			}
-			if s, ok := tsStringArg(g, loop.Body, "strings", "Index", 1); ok {
-				g.emitBytesLit("ts_line_sep", "testscript run: strings.Index(script, ...) — the line terminator", s)
-			} else {
-				g.fail("%s: run: strings.Index(script, <literal>) not found in the line loop", dir)
-			}
+			sep, _ = tsStringArg(g, loop.Body, "strings", "Index", 1)
+			g.emitBytesLit("ts_phase_prefix", "testscript run: a line with this prefix is a phase comment and is not handed to runLine", prefix)
+			g.emitBytesLit("ts_line_sep", "testscript run: strings.Index(script, ...) — the line terminator", sep)
 			g.emitBytesLit("ts_runloop_shape", "testscript TestScript.run: structural fingerprint of the line loop (see gen_tsparse_shape.go)", sb.String())
 		}
 	}
